@@ -296,7 +296,18 @@ var _ uuid.UUID
 //@ ensures [registered] has(this.chans, ret1)
 //@ modifies map(this.chans)
 
+// C11 ("to no one else"): giving up a notification id takes exactly that id's channel out of the registry and closes exactly
+// that channel (its own waiter wakes up, nobody else's); every other id keeps its channel; an unknown id is an error and
+// changes nothing
 //@ func (*utils.Notificator).Remove
 //@ props C11
-//@ assume
+//@ ghost closes int = 0
+//@ at close *
+//@ requires [C11 closes-only-the-removed-channel] old(has(this.chans, id)) && $chan == old(this.chans[id]) && closes == 0
+//@ set closes = closes + 1
+//@ end
+//@ requires [wf] this.chans != nil
+//@ ensures [C11 removed-and-closed] old(has(this.chans, id)) ==> isnil(ret) && !has(this.chans, id) && closes == 1
+//@ ensures [C11 others-keep-their-channels] forall k uuid.UUID :: k != id ==> has(this.chans, k) == old(has(this.chans, k)) && (has(this.chans, k) ==> this.chans[k] == old(this.chans[k]))
+//@ ensures [C11 unknown-id] !old(has(this.chans, id)) ==> ret == ErrNotificatorChannelDoesNotExist && closes == 0 && len(this.chans) == old(len(this.chans))
 //@ modifies map(this.chans)
